@@ -1,5 +1,5 @@
 (* The statements of Properties/C01.v assembled from Node/Gov.v, Node/GovProofs.v and Node/Witness.v. *)
-From NG Require Import Common.Tactics Tokens.Model Tokens.Inv Tokens.OpProofs Node.Gov Node.GovProofs Node.Restart Node.Witness.
+From NG Require Import Common.Tactics Tokens.Model Tokens.Names Tokens.Inv Tokens.OpProofs Node.Gov Node.GovProofs Node.Restart Node.Witness Auth.Permission Auth.PermStore.
 Open Scope Z_scope.
 
 Lemma cache_coherent cfg : cfg_wf cfg -> fix_block_dirty cfg = true -> fix_gpv_drop cfg = true -> fix_whitelist cfg = true ->
@@ -93,4 +93,33 @@ Proof.
   split; [apply w_cfg_wf|]. split; [reflexivity|]. split; [reflexivity|]. split; [reflexivity|]. split; [apply w_gpb_ok|].
   destruct gpb_last_of_equal as (_ & _ & E1 & E2). split; [rewrite E1, E2; reflexivity|].
   destruct gpb_first_of_equal_refuted as [F1 F2]. intros E. rewrite F1, F2 in E. discriminate.
+Qed.
+
+(* the cached contract state (id, counters, permissions, groups, safe flags) of a restarted node is the running node's,
+   field by field, after any continuation; hence Manifest.CanCall answers the same on both *)
+Lemma contract_state_restart_transparent cfg : cfg_wf cfg -> fix_block_dirty cfg = true -> fix_gpv_drop cfg = true -> fix_whitelist cfg = true ->
+  0 < csize cfg -> forall bs bs' a, blocks_ok cfg bs -> blocks_ok cfg bs' ->
+  contract_of (fold_left (step cfg) bs' (reinit cfg (reach cfg bs))) a = contract_of (fold_left (step cfg) bs' (reach cfg bs)) a
+  /\ (forall c m, can_call (mc_perms (contract_of (fold_left (step cfg) bs' (reinit cfg (reach cfg bs))) a)) c m
+                  = can_call (mc_perms (contract_of (fold_left (step cfg) bs' (reach cfg bs)) a)) c m).
+Proof.
+  intros CW F7 F23 F47 CS bs bs' a OK OK'.
+  destruct (restart_transparent cfg CW F7 F23 F47 CS bs bs' OK OK') as (_ & _ & HX).
+  pose proof (HX 4%N 0 a) as E. unfold obsX in E.
+  assert (Ec : contract_of (fold_left (step cfg) bs' (reinit cfg (reach cfg bs))) a = contract_of (fold_left (step cfg) bs' (reach cfg bs)) a)
+    by congruence.
+  split; [exact Ec|]. intros c m. rewrite Ec. reflexivity.
+Qed.
+
+Lemma manifest_empty_methods_as_wildcard_refuted :
+  let cfg := w_cfg true true in
+  let st := reach cfg w_mf in
+  cfg_wf cfg /\ blocks_ok cfg w_mf
+  /\ contract_of (reinit cfg st) 2 = contract_of st 2
+  /\ can_call (mc_perms (contract_of st 2)) mgmt_callee m_update
+     <> can_call (mc_perms (load_bug (aget ms0 (caddr 2) (mg_store (X st))))) mgmt_callee m_update.
+Proof.
+  split; [apply w_cfg_wf|]. split; [apply w_mf_ok|].
+  destruct manifest_roundtrip_example as (_ & E0 & E1 & E2). split; [exact E0|].
+  rewrite E1, E2. discriminate.
 Qed.
